@@ -1146,6 +1146,10 @@ def _emit_fn(asm, out, unit, kv, block, default_props):
             # anchor = the first words of a statement (robust against edits later in the statement)
             # `…#2`: the second statement that starts like this (for statements that legitimately occur more than once)
             occ = None
+            every = False
+            if anchor.endswith('#*'):
+                # `…#*`: every statement that starts like this (e.g. a ghost update before EACH `return;`)
+                anchor, every = anchor[:-2], True
             mo = re.match(r'^(.*)#(\d+)$', anchor, re.S)
             if mo:
                 anchor, occ = mo.group(1), int(mo.group(2))
@@ -1155,6 +1159,10 @@ def _emit_fn(asm, out, unit, kv, block, default_props):
             ms = [m for m in ms if mask_b[m.start()]]
             if occ is not None:
                 ms = [ms[occ - 1]] if 1 <= occ <= len(ms) else []
+            if every and ba == 'before_stmt' and len(ms) >= 1 and not isinstance(text, tuple):
+                for m_ in ms:
+                    inserts.append((m_.start(), ' ' + text + ' '))
+                continue
             if len(ms) != 1:
                 if isinstance(text, tuple):
                     raise ExtractError("anchor lost: %s: statement starting %r occurs %d times" % (fname, anchor, len(ms)))
